@@ -215,7 +215,7 @@ class Prefixed(BaseModel):
 
     def __float__(self) -> float:
         """Convert to float"""
-        return float(self.number) * 10**self.prefix.value
+        return float(self.scale(Prefix.UNIT).number)
 
     def __neg__(self) -> "Prefixed":
         with localcontext(_EXACT):
